@@ -319,8 +319,15 @@ fn compare_intersection(
                 ctx.count("oracle:equal", 1);
                 // design space sizes (tolerant: Debug prints a float)
                 let mut by_bit: BTreeMap<([u8; 16], usize), &Cand> = BTreeMap::new();
+                let mut ambiguous: BTreeSet<([u8; 16], usize)> = BTreeSet::new();
                 for c in cands {
-                    by_bit.insert((c.compat, c.bit_index), c);
+                    if by_bit.insert((c.compat, c.bit_index), c).is_some() {
+                        // two tables with the same compatibility id and entry offset
+                        ambiguous.insert((c.compat, c.bit_index));
+                    }
+                }
+                for a in &ambiguous {
+                    by_bit.remove(a);
                 }
                 for o in obs {
                     let (Some(b), Some(ds)) = (o.bit_index, &o.ds) else { continue };
